@@ -25,6 +25,10 @@ def minutes(dt):
     return int((dt - EPOCH).total_seconds() // 60)
 
 
+SUB_MINUTE = {}     # zone -> set of table keys (utc minute) whose offset has seconds
+SKIPPED = []
+
+
 def zone_table(ns, name, lo_year=1969, hi_year=2038):
     """[[utc minute from which it applies, offset minutes], ...] of a pytz zone"""
     tz = ns.pytz.timezone(name)
@@ -37,9 +41,15 @@ def zone_table(ns, name, lo_year=1969, hi_year=2038):
     first_off = None
     for t, info in zip(times, infos):
         off = int(info[0].total_seconds() // 60)
+        sub = bool(info[0].total_seconds() % 60)          # an offset that is not a whole number of minutes
         if t.year < lo_year:
             first_off = off
+            SUB_MINUTE.setdefault(name, set()).discard(-1000000000)
+            if sub:
+                SUB_MINUTE[name].add(-1000000000)          # only the offset in force at the start of the table matters
             continue
+        if sub or t.second:                                # ... or a transition instant that is not a whole minute
+            SUB_MINUTE.setdefault(name, set()).add(minutes(t))
         if t.year > hi_year:
             break
         table.append([minutes(t), off])
@@ -103,6 +113,10 @@ def record(ns, rng, cases):
         start_local = EPOCH + timedelta(minutes=start_min)
         vals = [rng.choice([1, 2, 3, 5, 8]) for _ in range(n)]
         via = (tid % 5 == 0) and n == 8
+        lo, hi = start_min - 2 * 1440, start_min + n * 60 + 2 * 1440
+        if name in SUB_MINUTE and any(r[0] in SUB_MINUTE[name] for r in restrict(table, lo, hi)):
+            SKIPPED.append(name)        # an offset with seconds (e.g. Africa/Monrovia -0:44:30 until 1972) is not on the lattice
+            continue
         try:
             t, v = convert(ns, name, start_local, vals, via, cache)
         except Exception as ex:   # noqa
@@ -169,7 +183,8 @@ def run(tier, out):
         out.extra.update({"rule": "a case = one hourly series straddling one transition of one IANA zone, converted by the "
                                   "real code and judged admissible or not by TLC; distinct by (zone, first local hour)",
                           "zones": len(set(e["name"] for e in events)), "conversions_with_merged_hours": kinds["skipped"],
-                          "through_usage_pattern": sum(1 for e in events if e["via_usage_pattern"])})
+                          "through_usage_pattern": sum(1 for e in events if e["via_usage_pattern"]),
+                          "cases_skipped_because_of_sub_minute_offsets_or_instants": sorted(set(SKIPPED))})
         out.assumptions += ["pytz's transition tables are the definition of the zones",
                             "for a repeated local hour either of its two instants is accepted, for a skipped one either "
                             "side of the transition (the property only requires that it is merged, not dropped)"]
